@@ -33,7 +33,7 @@ func init() {
 		MinDistinct: floor(15000, 200000),
 		RequiredCells: func(string) []string {
 			return []string{"roundtrip/constructed", "roundtrip/dagcbor", "roundtrip/dagjson", "roundtrip/delegation", "roundtrip/invocation", "roundtrip/string", "roundtrip/bytes",
-				"tamper/bitflip-nonce", "tamper/bitflip-mac", "tamper/bitflip-body", "tamper/truncate", "wrong-key", "plaintext-absent", "fresh-nonce", "entropy-fault", "never-encrypted", "badkey/nil", "badkey/size", "badkey/zero", "len=0", "len=1024"}
+				"tamper/bitflip-nonce", "tamper/bitflip-mac", "tamper/bitflip-body", "tamper/truncate", "wrong-key", "plaintext-absent", "fresh-nonce", "entropy-fault", "never-encrypted", "badkey/derived-from-right-key", "badkey/nil", "badkey/size", "badkey/zero", "len=0", "len=1024"}
 		},
 	})
 }
@@ -267,6 +267,55 @@ func runC19(w *mon.W) {
 					}
 					tryTampered("extend", len(stored), append(append([]byte{}, stored...), 0))
 				}
+			}
+		}
+	}
+
+	// ---- wrong-size keys derived from the RIGHT key (every proper prefix, the key extended), with
+	// right keys that contain zero bytes at their ends: none may decrypt
+	for _, shape := range []string{"random", "trailing-zero", "two-trailing-zeros", "leading-zero", "mostly-zero"} {
+		key := gen.Bytes(r, 32)
+		for i := range key {
+			key[i] |= 1
+		}
+		switch shape {
+		case "trailing-zero":
+			key[31] = 0
+		case "two-trailing-zeros":
+			key[30], key[31] = 0, 0
+		case "leading-zero":
+			key[0] = 0
+		case "mostly-zero":
+			for i := 1; i < 32; i++ {
+				key[i] = 0
+			}
+		}
+		m := meta.NewMeta()
+		if err := m.AddEncrypted("secret", "a secret of some length", key); err != nil {
+			w.Violate("add-fails/valid-key-with-zero-bytes", "AddEncrypted refused a valid 32-byte key ("+shape+"): "+err.Error(), map[string]any{"key": mon.Hex(key)})
+			continue
+		}
+		var cands [][]byte
+		for n := 0; n < 32; n++ {
+			cands = append(cands, key[:n], key[32-n:])
+		}
+		for n := 1; n <= 8; n++ {
+			cands = append(cands, append(append([]byte{}, key...), make([]byte, n)...), append(make([]byte, n), key...))
+		}
+		for _, k := range cands {
+			if len(k) == 32 {
+				continue
+			}
+			got, err := m.GetEncryptedBytes("secret", k)
+			_, err2 := m.GetEncryptedString("secret", k)
+			w.Eval(2)
+			w.Cover("badkey/derived-from-right-key")
+			w.Distinct("derived-key", shape, len(k), mon.Hex(capBytes(k, 4)))
+			if err == nil || err2 == nil {
+				w.Violate("badkey-accepted/get/derived/"+shape, fmt.Sprintf("a %d-byte key derived from the right key (%s) decrypts the value (%d bytes returned)", len(k), shape, len(got)), map[string]any{"right_key": mon.Hex(key), "offered_key": mon.Hex(k)})
+			}
+			if err := meta.NewMeta().AddEncrypted("x", "v", k); err == nil {
+				w.Violate("badkey-accepted/add/derived/"+shape, fmt.Sprintf("AddEncrypted accepted a %d-byte key", len(k)), map[string]any{"offered_key": mon.Hex(k)})
 			}
 		}
 	}
